@@ -169,6 +169,9 @@ def run(ctx):
         for i, name in enumerate(names):
             if i % 4 == ctx.seed % 4:
                 sc[name + "|v2cubic"] = {"script": name, "cfg": {"version": V2, "cc": "cubic"}}
+    # compatible version negotiation (the client starts in v1, both prefer v2): Initial keys change mid-handshake
+    for name in ("hs_only",) if quick and "hs_only" in SCRIPTS else [n for n in SCRIPTS if n in ("hs_only", "echo", "pingpong")]:
+        sc[name + "|compat"] = {"script": name, "cfg": {"version": V1, "c_supported": [V2, V1], "s_supported": [V2, V1]}}
     agg = netcheck.explore_scenarios(ctx, "c09", sc, 1, "d1", sig_extra=sig_extra)
     if not quick:
         sc2 = {k: v for k, v in sc.items() if k.endswith("|v1")}
